@@ -1,11 +1,15 @@
 import Driver.PathEngine
 import Driver.Parse
+import Driver.Engines2
 open Rio Rio.Driver
 
 def dispatch (line : String) : String :=
   match (line.trimAscii.toString.splitOn " ").filter (· ≠ "") with
   | "path" :: rest => pathEngine rest
   | "hash" :: rest => hashEngine rest
+  | "filt" :: rest => filtEngine rest
+  | "unpack" :: rest => unpackEngine rest
+  | "pack" :: rest => packEngine rest
   | _ => "bad-op"
 
 partial def loop (hin hout : IO.FS.Stream) : IO Unit := do
